@@ -22,10 +22,12 @@ def _is_opaque(v, what):
 
 @icp('Parser::set_locale', 'Parser::set_language', 'Parser::set_lexer_mode', 'Parser::set_worksheets_and_names')
 def _(eng, ci, a, dt):
-    if not _is_opaque(a[0], 'parser'):
-        raise Unsupported('Parser method on a non-opaque parser')
-    eng.assumptions.add('intercept %s: no-op on the opaque parser (rebuilds parser tables only)' % ci.key)
-    return UNIT
+    """on an opaque parser: no-op; the real parser (built by the Model intercept) runs its own MIR"""
+    if _is_opaque(a[0], 'parser'):
+        eng.assumptions.add('intercept %s: no-op on the opaque parser' % ci.key)
+        return UNIT
+    fn = ci.fallback_fn
+    return eng.run_fn(fn, a)
 
 
 @icp('locale::get_default_locale', 'fn get_default_locale')
@@ -33,6 +35,32 @@ def _(eng, ci, a, dt):
     eng.assumptions.add('intercept locale::get_default_locale: the hand-built en Locale of st::locale_with')
     from .rtm import _locale_en
     return Ref([_locale_en(eng)], 0)
+
+
+@icp('locale::get_locale', 'fn get_locale')
+def _(eng, ci, a, dt):
+    """get_locale(id): the hand-built en / de Locale of st::locale_with; other ids are unsupported"""
+    from .mcore import str_bytes, concrete_bytes, mkstrslice
+    loc = concrete_bytes(str_bytes(a[0]))
+    if loc not in (b'en', b'de'):
+        raise Unsupported('get_locale(%r)' % (loc,))
+    dec, grp = ('.', ',') if loc == b'en' else (',', '.')
+    for mf in eng.mfs:
+        for fn in mf.by_last.get('locale_with', ()):
+            if fn.kind == 'fn' and len(fn.params) == 2:
+                eng.assumptions.add('intercept locale::get_locale: the hand-built en/de Locale of st::locale_with')
+                return ok(Ref([eng.run_fn(fn, [mkstrslice(dec), mkstrslice(grp)])], 0))
+    raise Unsupported('get_locale without st::locale_with in the MIR')
+
+
+@icp('language::get_language', 'fn get_language')
+def _(eng, ci, a, dt):
+    from .mcore import str_bytes, concrete_bytes
+    from .rtm import _language_en
+    lang = concrete_bytes(str_bytes(a[0]))
+    if lang != b'en':
+        raise Unsupported('get_language(%r)' % (lang,))
+    return ok(Ref([_language_en(eng)], 0))
 
 
 @icp('language::get_default_language', 'fn get_default_language')
